@@ -1,10 +1,12 @@
 (* C02 -- property theorems only.  Subject: the executable model of SparseMatrixAssembler.assemble_sparse_stiffness_matrix
    (model/M_C02_Assembly.v) on top of the DofManager model of C14, and of the per-block loops of Mechanics._compute_*_multi_block.
-   The models are tied to the source by exact integer correspondence; the analytic half of the property (element blocks are the
-   autodiff Hessians of the element energies, chain rule through create_field) is compared on the real code (L2), not proved. *)
+   The models are tied to the source by exact integer correspondence.  The analytic half: the chain rule through the affine map
+   create_field and the element gathers IS proved (C02_hessian_chain*, for arbitrary element energies, given that each element
+   block holds the second directional derivatives of its element energy); that jax.hessian delivers those derivatives is not
+   ours to prove and is compared on the real code (L2). *)
 From Coq Require Import ZArith List Bool Arith Permutation Reals.
-From OV.model Require Import M_C14_Dof M_C02_Assembly.
-From OV.proofs Require Import L_C14 L_C02 L_C02_refs.
+From OV.model Require Import M_C14_Dof M_C02_Assembly M_C02_Energy M_C02_MultiBlock.
+From OV.proofs Require Import L_C14 L_C02 L_C02_refs L_C02_hess L_C02_mb.
 From OV.gen Require Import Refs_Mechanics.
 Import ListNotations.
 
@@ -82,13 +84,130 @@ Theorem C02_integrate_over_block_gather :
       nth_error (evaluate_on_block edef kernel elems block) k = Some (kernel (nth i elems edef))).
 Proof. exact gather_full. Qed.
 
-(* NOT PROVED: "the assembled matrix equals the second derivative of the total energy w.r.t. the unknowns" in full, i.e.
-     d2/dUu2 [ sum_e E_e(G_e (create_field Uu Ubc)) ] = P^T (sum_e G_e^T (d2 E_e) G_e) P,
-   because it needs (a) that jax.hessian(integrate_element_from_local_field) is the Hessian of the element energy (JAX autodiff,
-   not ours to prove) and (b) the chain rule through the affine map create_field for arbitrary twice differentiable E_e (a
-   standard fact not formalised here).  What IS proved is the index half: the assembler realises P^T (sum G^T K G) P exactly.
-   The analytic half is compared on the real code on every run (K vs dense jax.hessian), see tools/props/c02.py.
-   (Findings F5/F6 -- pressure-projection options, Newmark with UPredicted <> 0 -- are fixed in /repo and now covered by L2.) *)
+(* the multi-block clause as ONE statement over the model of the three per-block loops of Mechanics
+   (model/M_C02_MultiBlock.v: for blockKey in blockModels: elemIds = mesh.blocks[blockKey]; energy += integrate_over_block(...,
+   L(material), elemIds); statesNew = statesNew.at[elemIds].set(kernel(material) on dispGrads[elemIds], states[elemIds]);
+   elementHessians = elementHessians.at[elemIds].set(element stiffness(material) on the gathered rows)):
+   if the block id lists partition the elements (each element exactly once, ANY order inside and across blocks) and every block
+   carries the same material m, then the energy, the updated internal variables, the element Hessians and hence every entry of the
+   assembled stiffness (any BC mask, any connectivity) are those of the single-block functions for m.
+   E = an element's row of all per-element arrays, M = material, ek / sk / hk = the material's energy-density / state-update /
+   element-Hessian kernels evaluated on one element's own rows. *)
+Theorem C02_multiblock_same_material :
+  forall (E M S : Type) (edef : E) (ek : M -> E -> list R) (vols : E -> list R) (sk : M -> E -> S) (hk : M -> E -> list R)
+         (elems : list E) (blocks : list (list nat)) (mats : list M) (m : M) (base : list S) (zeros : list (list R)),
+  (forall e, length (ek m e) = length (vols e)) ->
+  length mats = length blocks -> Forall (eq m) mats ->
+  Permutation (concat blocks) (seq 0 (length elems)) ->
+  length base = length elems -> length zeros = length elems ->
+  mb_energy 0%R Rplus Rmult edef ek vols elems (combine blocks mats) = sb_energy 0%R Rplus Rmult edef ek vols elems m
+  /\ mb_states edef sk elems (combine blocks mats) base = sb_states sk elems m
+  /\ mb_hessians edef hk elems (combine blocks mats) zeros = sb_hessians hk elems m
+  /\ (forall isBc dim conns i j,
+        dense 0%R Rplus (coo_triples isBc dim conns (mb_hessians edef hk elems (combine blocks mats) zeros)) i j
+        = dense 0%R Rplus (coo_triples isBc dim conns (sb_hessians hk elems m)) i j).
+Proof. exact multiblock_full. Qed.
+
+(* hypotheses satisfiable, the loops do something, and with two DIFFERENT materials the result is not the single-block one *)
+Example C02_multiblock_nonvacuous :
+  let elems := [10; 20; 30]%Z in
+  let sk := fun (m : Z) (e : Z) => (m * e)%Z in
+  Permutation (concat [[2]; [0; 1]]) (seq 0 (length elems)) /\ Forall (eq 7%Z) [7; 7]%Z
+  /\ mb_states 0%Z sk elems (combine [[2]; [0; 1]] [7; 7]%Z) [0; 0; 0]%Z = [70; 140; 210]%Z
+  /\ sb_states sk elems 7%Z = [70; 140; 210]%Z
+  /\ mb_states 0%Z sk elems (combine [[2]; [0; 1]] [7; 5]%Z) [0; 0; 0]%Z <> sb_states sk elems 7%Z.
+Proof. exact multiblock_nonvacuous. Qed.
+
+(* ---------- the analytic half: chain rule through create_field and the element gathers ----------
+   reduced_energy isBc dim conns Es Ubc Uu = sum_e E_e(U[conns[e],:]) with U = create_field Uu Ubc   (model/M_C02_Energy.v)
+   lin x t a = x + t a;   bil n K a b = a^T K b;
+   mixed2 F k : d/ds d/dt F(s,t) at (0,0) exists and equals k  (Coquelicot: dF/dt(s,0) exists for s near 0, and s |-> dF/dt(s,0)
+                is differentiable at 0 with derivative k);
+   line2 f k  : f is differentiable near 0 and is_derive_n f 2 0 k;
+   represents n E x K : for all directions a, b in R^n  mixed2 (fun s t => E (x + s a + t b)) (a^T K b)
+                        -- "K holds the second directional derivatives of E at x".
+   For ARBITRARY element energies (no polynomial / smoothness restriction beyond the hypothesis itself): if every (symmetric) element
+   block K_e holds the second directional derivatives of E_e at the element's current local field, then the mixed second
+   directional derivative of the total energy w.r.t. the unknowns in directions (v, w) exists and is v^T K w with K the
+   matrix the assembler produces -- i.e. K = P^T (sum_e G_e^T K_e G_e) P is the Hessian of Uu |-> E(create_field Uu Ubc). *)
+Theorem C02_hessian_chain :
+  forall isBc dim nNodes conns (Es : list (list R -> R)) (Ks : list (nat -> nat -> R)) (Uu Ubc v w : list R),
+  length isBc = nNodes * dim -> valid_conns nNodes conns -> blocks_symmetric dim conns Ks -> length Es = length conns ->
+  length Uu = get_unknown_size isBc -> length Ubc = get_bc_size isBc ->
+  length v = get_unknown_size isBc -> length w = get_unknown_size isBc ->
+  (forall e, e < length conns ->
+      represents (length (el_dofs dim (nth e conns []))) (nth e Es E0)
+                 (gather_local 0%R dim (create_field isBc 0%R Uu Ubc) (nth e conns [])) (nth e Ks K0)) ->
+  mixed2 (fun s t => reduced_energy isBc dim conns Es Ubc (lin (lin Uu s v) t w))
+         (bil (get_unknown_size isBc)
+              (fun i j => dense 0%R Rplus (coo_triples isBc dim conns (kvals_of dim conns Ks)) (Z.of_nat i) (Z.of_nat j)) v w).
+Proof. exact hessian_chain_full. Qed.
+
+(* coordinate form: entry (i, j) of the assembled matrix is the mixed partial derivative d2 E / dUu_i dUu_j *)
+Theorem C02_hessian_entries :
+  forall isBc dim nNodes conns (Es : list (list R -> R)) (Ks : list (nat -> nat -> R)) (Uu Ubc : list R) i j,
+  length isBc = nNodes * dim -> valid_conns nNodes conns -> blocks_symmetric dim conns Ks -> length Es = length conns ->
+  length Uu = get_unknown_size isBc -> length Ubc = get_bc_size isBc ->
+  i < get_unknown_size isBc -> j < get_unknown_size isBc ->
+  (forall e, e < length conns ->
+      represents (length (el_dofs dim (nth e conns []))) (nth e Es E0)
+                 (gather_local 0%R dim (create_field isBc 0%R Uu Ubc) (nth e conns [])) (nth e Ks K0)) ->
+  mixed2 (fun s t => reduced_energy isBc dim conns Es Ubc
+                       (lin (lin Uu s (unitv (get_unknown_size isBc) i)) t (unitv (get_unknown_size isBc) j)))
+         (dense 0%R Rplus (coo_triples isBc dim conns (kvals_of dim conns Ks)) (Z.of_nat i) (Z.of_nat j)).
+Proof. exact hessian_entries. Qed.
+
+(* the same along single lines (Derive_n ... 2): d2/dt2 E(Uu + t v) at 0 = v^T K v, from second derivatives of the element
+   energies along lines only *)
+Theorem C02_hessian_chain_line :
+  forall isBc dim nNodes conns (Es : list (list R -> R)) (Ks : list (nat -> nat -> R)) (Uu Ubc v : list R),
+  length isBc = nNodes * dim -> valid_conns nNodes conns -> blocks_symmetric dim conns Ks -> length Es = length conns ->
+  length Uu = get_unknown_size isBc -> length Ubc = get_bc_size isBc -> length v = get_unknown_size isBc ->
+  (forall e, e < length conns ->
+      represents_line (length (el_dofs dim (nth e conns []))) (nth e Es E0)
+                      (gather_local 0%R dim (create_field isBc 0%R Uu Ubc) (nth e conns [])) (nth e Ks K0)) ->
+  line2 (fun t => reduced_energy isBc dim conns Es Ubc (lin Uu t v))
+        (bil (get_unknown_size isBc)
+             (fun i j => dense 0%R Rplus (coo_triples isBc dim conns (kvals_of dim conns Ks)) (Z.of_nat i) (Z.of_nat j)) v v).
+Proof. exact hessian_chain_line_full. Qed.
+
+(* unconditional instance: quadratic element energies c_e + g_e.x + 1/2 x^T K_e x (linear elasticity; any linearised material)
+   -- the assembled matrix is the Hessian of the total energy, both as mixed derivative and along lines *)
+Theorem C02_hessian_quadratic :
+  forall isBc dim nNodes conns (Es : list (list R -> R)) (Ks : list (nat -> nat -> R)) (Uu Ubc v w : list R),
+  length isBc = nNodes * dim -> valid_conns nNodes conns -> blocks_symmetric dim conns Ks -> length Es = length conns ->
+  length Uu = get_unknown_size isBc -> length Ubc = get_bc_size isBc ->
+  length v = get_unknown_size isBc -> length w = get_unknown_size isBc ->
+  (forall e, e < length conns -> exists c g, forall x,
+        nth e Es E0 x = quad_energy (length (el_dofs dim (nth e conns []))) c g (nth e Ks K0) x) ->
+  mixed2 (fun s t => reduced_energy isBc dim conns Es Ubc (lin (lin Uu s v) t w))
+         (bil (get_unknown_size isBc)
+              (fun i j => dense 0%R Rplus (coo_triples isBc dim conns (kvals_of dim conns Ks)) (Z.of_nat i) (Z.of_nat j)) v w)
+  /\ line2 (fun t => reduced_energy isBc dim conns Es Ubc (lin Uu t v))
+           (bil (get_unknown_size isBc)
+                (fun i j => dense 0%R Rplus (coo_triples isBc dim conns (kvals_of dim conns Ks)) (Z.of_nat i) (Z.of_nat j)) v v).
+Proof. exact hessian_quadratic. Qed.
+
+(* the hypotheses are jointly satisfiable (two-element mesh with BCs, quadratic energies with the symmetric example blocks, any
+   Uu / Ubc), and `represents` is not restricted to constant Hessians: E(x) = x_0^3 has K(x) = [6 x_0] *)
+Example C02_hessian_nonvacuous :
+  length ex_isBc = 4 * 2 /\ valid_conns 4 ex_conns /\ blocks_symmetric 2 ex_conns ex_KsR /\ length ex_Es = length ex_conns
+  /\ get_unknown_size ex_isBc = 5 /\ get_bc_size ex_isBc = 3
+  /\ (forall Uu Ubc e, length Uu = 5 -> length Ubc = 3 -> e < length ex_conns ->
+        represents (length (el_dofs 2 (nth e ex_conns []))) (nth e ex_Es E0)
+                   (gather_local 0%R 2 (create_field ex_isBc 0%R Uu Ubc) (nth e ex_conns [])) (nth e ex_KsR K0))
+  /\ (forall x0 : R, represents 1 (fun x => (nth 0 x 0 ^ 3)%R) [x0] (fun _ _ => (6 * x0)%R))
+  /\ (exists x0 x1 : R, (fun _ _ : nat => (6 * x0)%R) 0 0 <> (fun _ _ : nat => (6 * x1)%R) 0 0).
+Proof. exact hessian_nonvacuous. Qed.
+
+(* NOT PROVED (remaining gap of "the assembled matrix equals the second derivative of the total energy"): hypothesis `represents`
+   of C02_hessian_chain for the REAL element energies, i.e. that jax.hessian(FunctionSpace.integrate_element_from_local_field)
+   returns the second directional derivatives of the element energy (JAX autodiff; not ours to prove), and that those energies are
+   twice differentiable at the current state (material-specific: true for the neo-Hookean / linear elastic densities at det F > 0,
+   false for J2 exactly on the yield surface).  Also the Hessian as a Frechet derivative (rather than the matrix of mixed
+   directional derivatives) is not formalised.  The L2 stream compares K with the dense jax.hessian and, new, v^T K w with the
+   forward-over-forward directional derivative jvp(jvp(E o create_field)) on the real code on every run.
+   (Findings F5/F6 -- pressure-projection options, Newmark with UPredicted <> 0 -- are fixed in /repo and covered by L2.) *)
 
 (* static well-formedness of Mechanics.py (table regenerated from the AST on every run, decided by computation): every
    Module.attr reference resolves, no name is read that is bound nowhere, and every nested element-gradient hook has the arity
@@ -118,3 +237,6 @@ Print Assumptions C02_assembly_is_PtKP.
 Print Assumptions C02_blocks_partition.
 Print Assumptions C02_integrate_over_block_gather.
 Print Assumptions C02_refs_resolve.
+Print Assumptions C02_hessian_chain.
+Print Assumptions C02_hessian_quadratic.
+Print Assumptions C02_multiblock_same_material.
